@@ -33,6 +33,10 @@ var imports = map[string][]imp{
 		Why: "'at most one DB query at a time' rests on syncx.SingleFlight (C18 flight-group rules)"}},
 	"C08": {{From: "C12", Prefix: "RD/", Keep: func(k string) bool { return k == "D2/K6/acceptable-set" },
 		Why: "the limiters run their scripts through the Redis wrapper's breaker: a redis.Nil reply (every refused take) must stay a benign outcome, or sustained refusals trip the breaker and the token limiter falls back to its full in-process bucket (C12 acceptable-set rule)"}},
+	"C13": {{From: "C12", Prefix: "KV/", Keep: func(k string) bool {
+		return k == "D5/K8/kv-routing-key" || k == "D5/K1/kv-del-every-key" || k == "D1/K9/twins/kv.kvStore"
+	},
+		Why: "'the same node every time while membership is unchanged' is observed at the node kv.NewStore chooses for a key: every kv.Store operation on key K must run on the node the ring returns for K itself (not for a field, value or constant), through the context-free twins as well, or one key is served by two nodes of an unchanged membership (C12 kv routing rules)"}},
 	"C17": {{From: "C18", Prefix: "SF/", Keep: func(k string) bool { return strings.HasSuffix(k, "flightGroup") },
 		Why: "Take's single flight rests on syncx.SingleFlight (C18 flight-group rules)"},
 		{From: "C10", Prefix: "TW/", Keep: func(k string) bool { return true },
